@@ -628,6 +628,28 @@ class Prop(object):
                 o = {'sig': key.certify(uid, level=SignatureType.Casual_Cert, **kw), 'verify_subject': uid, 'verifier': kpub, 'ref_key': raw,
                      'ref_subject': {'key': tbody, 'uid': ustr.encode('utf-8')}, 'want_type': 0x12}
                 both(o, {'subject': 'uid', 'cls': name}, dict(case, only=name), 'certification of user id %r' % ustr[:40])
+            # a user id whose key object is gone (the public half derived in passing, `other.pubkey.userids[0]`; an identity taken off a key): a user id
+            # does not keep its key alive.  Certifying it may be refused - what may not happen is a finished signature that certifies nothing
+            import gc
+            for name, mk in (('orphan-pubkey', lambda: K.pgpy_cert('ed25519b', uid=S.TARGET_UID)[0].pubkey.userids[0]),
+                             ('orphan-dropped-key', lambda: K.pgpy_cert('ed25519b', uid=S.TARGET_UID)[0].userids[0])):
+                if only and name != only:
+                    continue
+                r.states += 1
+                r.transitions += 1
+                orphan = mk()
+                gc.collect()
+                try:
+                    osig = key.certify(orphan, level=SignatureType.Casual_Cert, **kw)
+                except Exception:
+                    r.outcomes['pgpy-made:orphan-refused'] += 1
+                    continue
+                oraw = K.raw('ed25519b', K.T0)
+                okay, why = rsig.verify(rsig.parse_body(wire.read_packet(S.sig_packet_bytes(osig))['body'], strict=False), {'key': rkeys.public_body(oraw), 'uid': S.TARGET_UID.encode()}, raw)
+                r.outcomes['pgpy-made:orphan-' + ('ok' if okay else 'invalid')] += 1
+                if not okay:
+                    r.viol('pgpy-made', {'subject': 'uid', 'cls': 'orphan', 'stage': 'ref-verify'}, dict(case, only=name),
+                           'certification of a user id whose key object is gone (%s): PGPy returned a signature that is no certification of that key and user id: %s' % (name, why))
             # a user id that is not valid UTF-8 (older producers wrote Latin-1): the certification is over the octets of the packet, which only a key
             # loaded from elsewhere can carry
             for i, uoct in enumerate(['Jos\xe9 Latin <jose@example.es>'.encode('latin-1'), b'\xff\xfe raw octets \x80', 'Gr\xfc\xdfe'.encode('latin-1')]):
